@@ -238,6 +238,9 @@ def gen_scenarios(rng, quick):
                 reent=0, raw=rng.below(2), stop=rng.below(3))
         else:
             add("cli", seed=rng.below(1 << 30), apps=rng.range(1, 4), rounds=rng.range(10, 40 if quick else 120), reent=0, raw=rng.below(2), close=rng.below(2))
+    # the application now and then hands over an ASDU that is too large for an APDU (refused by the queue; nothing may stay locked)
+    for mode in (0, 1, 2):
+        add("srv", seed=rng.below(1 << 30), mode=mode, conns=rng.range(1, 2), apps=rng.range(1, 3), rounds=25 if quick else 80, reent=0, raw=0, stop=0, big=1)
     plain = list(sc)
     # callbacks that call back into the API (instrumented-semaphore build only)
     sc = []
